@@ -8,8 +8,8 @@
                             edges in insertion order (what `dag[u][v]` iterates over), `node_dict["Input"]`,
                             `node_dict["OneQubitGateWrapper"]`, `node_dict["Identity"]` orders
     circuit_comparison.py   `direct`, `add_control_target_to_dag`, `_create_edge_control_target_attr`,
-                            `circuit_is_isomorphic` (`node_match`, `edge_match` as coded: first key only, no role for
-                            classically controlled operations), `remove_redundant_circuits`, `check_redundant_circuit`,
+                            `circuit_is_isomorphic` (`node_match`, `edge_match` as coded: multiset of roles of the
+                            parallel edges, no role for classically controlled operations), `remove_redundant_circuits`, `check_redundant_circuit`,
                             `CircuitStorage`
   `networkx.is_isomorphic` is a library with the recorded specification "decides whether a node bijection exists that
   preserves edge multiplicities and satisfies node_match / edge_match"; `isoCheck` is that specification as a checker
@@ -299,11 +299,17 @@ def nodeMatch (a b : NOp) : Bool :=
 
 def MG.edgesBetween (g : MG) (u v : Nd) : List Edge := g.edges.filter (fun e => e.src == u && e.dst == v)
 
-/-- `edge_match(e1, e2)`: only the first key of each multi-edge dictionary is looked at -/
-def edgeMatch (es1 es2 : List Edge) : Bool :=
-  match es1, es2 with
-  | e1 :: _, e2 :: _ => e1.ct == e2.ct
-  | _, _ => true
+/-- rank of a `control_target` attribute under `str()` ordering: "None" < "c" < "t" (only the multiset matters) -/
+def ctKey : Option Char → Nat
+  | none => 0
+  | some 'c' => 1
+  | some _ => 2
+
+def countCt (es : List Edge) (k : Nat) : Nat := (es.filter fun e => ctKey e.ct == k).length
+
+/-- `edge_match(e1, e2)`: `sorted(str(d["control_target"]) for d in e.values())` of the two multi-edge dictionaries
+    agree — i.e. the parallel edges carry the same multiset of attributes, whatever their insertion order -/
+def edgeMatch (es1 es2 : List Edge) : Bool := (List.range 3).all fun k => countCt es1 k == countCt es2 k
 
 def nodupNd : List Nd → Bool
   | [] => true
